@@ -302,6 +302,10 @@ func (c12) runOn(g *spec.Grammar, what string, injected bool, idx int) Outcome {
 		o.count("eval:cli_runs", 1)
 		failed := res.Exit != 0 || strings.Contains(res.Out, "panic:")
 		switch {
+		case res.TimedOut || res.Signal != "":
+			// ended by the watchdog or the CPU limit: no answer of yaccgo (termination is C13's subject)
+			o.Status = "inconclusive"
+			o.Detail = fmt.Sprintf("CLI run ended by a resource limit (timed out %v, signal %q, %.1f CPU-s)", res.TimedOut, res.Signal, res.CPU)
 		case usable && (failed || statErr != nil):
 			o.Status = "violated"
 			o.Detail = fmt.Sprintf("CLI refuses a usable grammar (%s): exit %d, %s\ngrammar:\n%s", what, res.Exit, trunc(res.Out, 300), text)
